@@ -719,3 +719,136 @@ def rule_PC1(repo: Repo) -> RuleResult:
     else:
         res.bad(f, f.node, "labels", "the labels must be: one head label, one per adjacent pair of edges, one tail label (len(bins) + 1 labels for the len(bins) + 1 searchsorted codes)")
     return res
+
+
+# ------------------------------------------------------------------------------------------------ MG1 (margin rows)
+
+def rule_MG1(repo: Repo) -> RuleResult:
+    """add_row_margin, the re-aggregation that produces every 'All' row.  (a) one level: the 'All' row is data.agg(agg_func).
+    (b) several levels, for each requested level: the other levels are ALL levels except that one; the subtotal groups the
+    per-group result by exactly those other levels and aggregates with the caller's agg_func; nested subtotals by recursion
+    with the same agg_func; (c) the 'All' label is put in front and moved back to the level's own position with the INVERSE
+    of the permutation [level, *other_levels] (np.argsort of it), the names being taken in that same order; (d) the 'All'
+    rows of levels that were not requested are dropped.  _add_margins hands levels=None for margins=True and the list
+    otherwise."""
+    res = RuleResult("MG1", "margin rows: subtotal over exactly the other levels with the caller's aggregator; 'All' moved back by the inverse permutation")
+    CORE_ = "groupby.core"
+    f = repo.func(CORE_, "add_row_margin")
+    params = list(f.named_params)
+    data_p, agg_p, levels_p = params[0], params[1], params[2]
+    # (a) single level
+    single = [n for n in walk_no_nested(f.node) if isinstance(n, ast.If) and "nlevels == 1" in norm(n.test)]
+    if not single:
+        raise AnalysisError("MG1: single-level branch of add_row_margin not found")
+    st = [s for s in single[0].body if isinstance(s, ast.Assign) and isinstance(s.targets[0], ast.Subscript)
+          and isinstance(s.targets[0].slice, ast.Constant) and s.targets[0].slice.value == "All"]
+    if st and isinstance(st[0].value, ast.Call) and isinstance(st[0].value.func, ast.Attribute) and st[0].value.func.attr in ("agg", "aggregate") \
+            and st[0].value.args and norm(st[0].value.args[0]) == agg_p and norm(st[0].value.func.value) == data_p:
+        res.ok(f, st[0], norm(st[0]), "grand total with the caller's aggregator")
+    else:
+        res.bad(f, single[0], "single-level 'All' row: " + (norm(st[0]) if st else "missing"),
+                f"for one key the 'All' row must be {data_p}.agg({agg_p}): the same aggregation over all rows")
+    # (b)/(c) the per-level loop
+    loops = [l for l in walk_no_nested(f.node) if isinstance(l, ast.For) and isinstance(l.target, ast.Name)
+             and any(isinstance(c, ast.Call) and isinstance(c.func, ast.Name) and c.func.id == f.name for c in ast.walk(l))]
+    if len(loops) != 1:
+        raise AnalysisError(f"MG1: {len(loops)} per-level loops with a recursive call in add_row_margin (expected 1)")
+    loop = loops[0]
+    lv = loop.target.id
+    if norm(loop.iter) != levels_p:
+        res.bad(f, loop, f"for {lv} in {norm(loop.iter)}", f"the subtotals must be computed for the requested levels ({levels_p})")
+    # other levels = complement
+    others = None
+    for s in loop.body:
+        if isinstance(s, ast.Assign) and len(s.targets) == 1 and isinstance(s.targets[0], ast.Name) and isinstance(s.value, ast.ListComp) \
+                and len(s.value.generators) == 1:
+            g = s.value.generators[0]
+            if isinstance(g.target, ast.Name) and norm(s.value.elt) == g.target.id and len(g.ifs) == 1:
+                t = g.ifs[0]
+                if isinstance(t, ast.Compare) and len(t.ops) == 1 and isinstance(t.ops[0], ast.NotEq) \
+                        and {norm(t.left), norm(t.comparators[0])} == {g.target.id, lv}:
+                    others = s.targets[0].id
+                    all_iter = norm(g.iter)
+                    res.ok(f, s, norm(s), "all levels except the one being summarised")
+    if others is None:
+        res.bad(f, loop, "other levels", "the levels a subtotal is grouped by must be all levels except the summarised one "
+                                         "([l for l in all_levels if l != level])")
+        return res
+    # all_levels really is every level
+    alldef = [s for s in walk_no_nested(f.node) if isinstance(s, ast.Assign) and len(s.targets) == 1 and norm(s.targets[0]) == all_iter]
+    if alldef and "nlevels" in norm(alldef[0].value) and "range(" in norm(alldef[0].value) and not any(
+            isinstance(x, ast.BinOp) for x in ast.walk(alldef[0].value)):
+        res.ok(f, alldef[0], norm(alldef[0]), "every index level")
+    else:
+        res.bad(f, alldef[0] if alldef else loop, f"{all_iter} = {norm(alldef[0].value) if alldef else '?'}", "must enumerate every index level: range(index.nlevels)")
+    # subtotal: data.groupby(level=others, ..).agg(agg_func)
+    gb = [c for c in ast.walk(loop) if isinstance(c, ast.Call) and isinstance(c.func, ast.Attribute) and c.func.attr in ("agg", "aggregate")
+          and isinstance(c.func.value, ast.Call) and isinstance(c.func.value.func, ast.Attribute) and c.func.value.func.attr == "groupby"]
+    if len(gb) != 1:
+        raise AnalysisError(f"MG1: {len(gb)} groupby(..).agg(..) subtotals in the per-level loop (expected 1)")
+    g = gb[0]
+    inner = g.func.value
+    lvl_arg = next((k.value for k in inner.keywords if k.arg == "level"), None)
+    ok_sub = norm(inner.func.value) == data_p and lvl_arg is not None and norm(lvl_arg) == others \
+        and len(g.args) >= 1 and norm(g.args[0]) == agg_p
+    if ok_sub:
+        res.ok(f, g, norm(g)[:90], "subtotal of the per-group result over the other levels")
+    else:
+        res.bad(f, g, norm(g)[:90], f"a level's 'All' rows must be {data_p}.groupby(level={others}).agg({agg_p}): grouped by exactly the other "
+                                    f"levels, aggregated with the caller's aggregator")
+    rec = [c for c in ast.walk(loop) if isinstance(c, ast.Call) and isinstance(c.func, ast.Name) and c.func.id == f.name]
+    for c in rec:
+        bound = dict(zip(params, c.args))
+        bound.update({k.arg: k.value for k in c.keywords if k.arg})
+        if agg_p in bound and norm(bound[agg_p]) == agg_p:
+            res.ok(f, c, norm(c), "nested subtotals with the same aggregator")
+        else:
+            res.bad(f, c, norm(c), f"the nested subtotals must use the caller's aggregator ({agg_p}); the default 'sum' gives wrong min/max/... corners")
+    # (c) order list and its inverse
+    ro = [c for c in ast.walk(loop) if isinstance(c, ast.Call) and isinstance(c.func, ast.Attribute) and c.func.attr == "reorder_levels"]
+    nm = [k.value for c in ast.walk(loop) if isinstance(c, ast.Call) for k in c.keywords if k.arg == "names"]
+    want_order = {f"[{lv}, *{others}]", f"[{lv}] + {others}"}
+    from .canon import subst_single_defs
+    if len(ro) == 1 and ro[0].args:
+        a = subst_single_defs(f, ro[0].args[0], keep={lv, others})
+        if isinstance(a, ast.Call) and norm(a.func) in ("np.argsort", "numpy.argsort") and a.args and norm(subst_single_defs(f, a.args[0], keep={lv, others})) in want_order:
+            res.ok(f, ro[0], norm(ro[0])[:90], "inverse permutation of [level, *other_levels]")
+        else:
+            res.bad(f, ro[0], norm(ro[0])[:90],
+                    f"the 'All' level is concatenated in front ([{lv}, *{others}]) and must be moved back to position {lv} with the INVERSE "
+                    f"permutation np.argsort([{lv}, *{others}]); the permutation itself differs for three or more keys")
+    else:
+        res.bad(f, loop, "reorder_levels", "the 'All' level is no longer moved back to the position of the summarised level")
+    if nm:
+        n0 = subst_single_defs(f, nm[0], keep={lv, others})
+        its = [norm(subst_single_defs(f, g_.iter, keep={lv, others})) for g_ in ast.walk(n0) if isinstance(g_, ast.comprehension)]
+        if its and its[0] in want_order:
+            res.ok(f, nm[0], norm(nm[0])[:90], "names in the same order as the levels")
+        else:
+            res.bad(f, nm[0], norm(nm[0])[:90], f"the level names of the subtotal must be listed in the order [{lv}, *{others}] (the order of its levels)")
+    # (d) unrequested levels dropped
+    drops = [l for l in walk_no_nested(f.node) if isinstance(l, ast.For) and any(
+        isinstance(c, ast.Call) and isinstance(c.func, ast.Attribute) and c.func.attr == "drop" and c.args and isinstance(c.args[0], ast.Constant)
+        and c.args[0].value == "All" for c in ast.walk(l))]
+    if drops and levels_p in norm(drops[0].iter) and all_iter in norm(drops[0].iter) and "-" in norm(drops[0].iter):
+        res.ok(f, drops[0], f"for {norm(drops[0].target)} in {norm(drops[0].iter)}: drop 'All'", "unrequested levels get no 'All' rows")
+    else:
+        res.bad(f, drops[0] if drops else f.node, "drop of unrequested 'All' rows",
+                "the 'All' rows of the levels that were not requested must be dropped (margins restricted to the requested levels)")
+    # _add_margins
+    am = repo.func(CORE_, "GroupBy._add_margins")
+    calls = [c for c in walk_no_nested(am.node) if isinstance(c, ast.Call) and (call_name(c) or "") == "add_row_margin"]
+    if len(calls) != 1:
+        raise AnalysisError("MG1: GroupBy._add_margins no longer calls add_row_margin exactly once")
+    bound = dict(zip(params, calls[0].args))
+    bound.update({k.arg: k.value for k in calls[0].keywords if k.arg})
+    lv_e = bound.get(levels_p)
+    mp = am.named_params[2] if len(am.named_params) > 2 else "margins"
+    defs = [s for s in walk_no_nested(am.node) if isinstance(s, ast.Assign) and isinstance(lv_e, ast.Name) and norm(s.targets[0]) == lv_e.id]
+    vals = {norm(s.value) for s in defs}
+    if lv_e is not None and ((vals and vals <= {f"list({mp})", "None", mp}) and "None" in vals and len(vals) == 2):
+        res.ok(am, calls[0], f"levels = {sorted(vals)}", "the requested levels, or None for all")
+    else:
+        res.bad(am, calls[0], f"levels = {sorted(vals) if vals else (norm(lv_e) if lv_e is not None else 'missing')}",
+                f"_add_margins must pass the requested levels (list({mp})) when a list is given and None otherwise")
+    return res
